@@ -144,6 +144,10 @@ def run(tier, seed):
     # validated against spec/EvalBounded.tla (bindings undone, limit restored)
     from . import c17
     c17.family(chk, tier, seed, only=[0, 3, 7, -2, -1])
+    # "a query or unification generator": every start state of spec/UnifyGen.tla on the real unify, ended three
+    # ways, created before / started under other unifications (see harness/props/c02.py)
+    from . import c02
+    c02.unify_family(chk, tier, seed)
     need = ["Close_close", "Close_drop", "Close_raise", "Close_break", "DoNativeRaise", "DoAnswer", "DoExhausted"]
     missing = [e for e in need if not chk.events.get(e)]
     if missing:
